@@ -1020,6 +1020,11 @@ class BaseEvolutionOperations(object):
     def change_column_attr_db_table(self, model, mutation, field, old_value,
                                     new_value):
         """Returns the SQL for changing the table for a ManyToManyField."""
+        if old_value is None:
+            # The table name was never set explicitly, so the table has the
+            # default name generated for the field.
+            old_value = field._get_m2m_db_table(model._meta)
+
         return self.rename_table(model, old_value, new_value)
 
     def change_column_attrs_db_index_unique(self, model, mutation, field,
